@@ -36,6 +36,10 @@ PARAMS = ["amp", "xo", "yo", "sx", "sy", "theta"]
 
 
 MUTANTS = [
+    ("Fisher matrix over the not-NaN pixels", "AegeanTools/fitting.py",
+     "    mask = np.where(np.isfinite(data))\n\n    # calculate the proper",
+     "    mask = np.where(~np.isnan(data))\n\n    # calculate the proper",
+     "C04-R12"),
     ("errors from the Jacobian on the transposed pixel set",
      "AegeanTools/fitting.py",
      "            J = lmfit_jacobian(params, mask[0], mask[1], errs=errs)",
@@ -198,6 +202,59 @@ def find_roles(prog):
     return fit, wrapper, analytic[0], dfun_call
 
 
+def r12_pixel_set(ctx, prog, rule="C04-R12"):
+    """fit, covariance matrix and Fisher matrix are built over ONE pixel set:
+    every pixel selection (numpy.where / nonzero / count_nonzero of a
+    validity predicate) in the fit-and-error path is numpy.isfinite(<pixels>)
+    itself.  `~isnan` also selects +-inf pixels that the fit left out: the
+    Jacobian then has more rows than the covariance matrix (every error
+    becomes -1) or, without the matrix, pixels that carried no information
+    shrink every 1-sigma error."""
+    ctx.rule(rule, "one pixel set for fit, covariance and Fisher matrix: "
+             "each pixel selection in do_lmfit / covar_errors / the island "
+             "fitters is numpy.isfinite(<pixels>) (sibling agreement; "
+             "~isnan, isinf or x == x select a different set when the island "
+             "holds an infinite pixel)")
+    from .c08 import _resolve_local
+    scope = [f for f in ("fitting.do_lmfit", "fitting.covar_errors",
+                         "fitting.RB_bias", "fitting.bias_correct",
+                         "source_finder.SourceFinder._fit_island",
+                         "source_finder.SourceFinder._refit_islands")
+             if prog.has_func(f)]
+    n = 0
+    for short in scope:
+        fi = prog.func(short)
+        mod = prog.modules[fi.module]
+        for c in walk_no_nested(fi.node):
+            if not (isinstance(c, ast.Call) and len(c.args) == 1 and
+                    not c.keywords):
+                continue
+            d = prog.dotted(mod, c.func)
+            if d not in ("numpy.where", "numpy.nonzero", "numpy.argwhere",
+                         "numpy.flatnonzero"):
+                continue
+            pred = _resolve_local(fi.node, c.args[0])
+            preds = {prog.dotted(mod, x.func) for x in ast.walk(pred)
+                     if isinstance(x, ast.Call)}
+            valid = preds & {"numpy.isfinite", "numpy.isnan", "numpy.isinf"}
+            selfcmp = any(isinstance(x, ast.Compare) and len(x.ops) == 1 and
+                          isinstance(x.ops[0], (ast.Eq, ast.NotEq)) and
+                          norm(x.left) == norm(x.comparators[0])
+                          for x in ast.walk(pred))
+            if not valid and not selfcmp:
+                continue
+            n += 1
+            ok = isinstance(pred, ast.Call) and \
+                prog.dotted(mod, pred.func) == "numpy.isfinite" and \
+                not selfcmp
+            ctx.check(rule, fi, "pixel selection " + norm(c, 70), ok,
+                      "the pixels selected here are not the finite ones "
+                      "(%s): with an infinite pixel in the island this is a "
+                      "different set from the one the fit / the covariance "
+                      "matrix were built on" % norm(pred, 60), node=c)
+    ctx.floor(rule, n, 4, "pixel selections in the fit-and-error path")
+
+
 def run(ctx):
     prog = ctx.prog
     fit, wrapper, jac, dfun_call = find_roles(prog)
@@ -210,6 +267,7 @@ def run(ctx):
     r6(ctx, prog, fit, wrapper, dfun_call)
     r8_pairing(ctx, prog)
     r10_noise(ctx, prog)
+    r12_pixel_set(ctx, prog)
     ctx.rule("C04-R9", "noise / covariance model: the correlation matrix is "
              "built from the model function with the pixel positions on the "
              "right axes, the two widths in (first, second) axis order and "
